@@ -317,8 +317,19 @@ def run(ctx: Ctx, rs: RuleSet, tier: str):
     loc = f'{mod.relpath}:{getattr(node, "lineno", 0)}'
     if c == 'thread-local':
       cq = kind.split(':', 1)[1] if kind.startswith('instance:') else None
-      rs.check(cq is not None and 'threading.local' in p.mro(cq), rule, q,
-               f'instance of {cq}, MRO {p.mro(cq) if cq else None}', loc)
+      rebound = [(fq, n) for fq, n, how in writers[q]
+                 if how == 'rebinding via global']
+      is_tls = cq is not None and 'threading.local' in p.mro(cq)
+      rs.check(is_tls and not rebound, rule, q,
+               f'instance of {cq}, MRO {p.mro(cq) if cq else None}; the '
+               'module-level name is never rebound' if not rebound else
+               f'{rebound[0][0]} rebinds the module-level name `{q}`: the '
+               'replacement object is seen by every thread (its per-thread '
+               'attributes start from the constructor arguments of the '
+               'rebinding thread), so one thread\'s switch leaks into all '
+               'others',
+               ctx.loc(p.funcs[rebound[0][0]], rebound[0][1]) if rebound
+               else loc)
     elif c == 'atomic-counter':
       ok = kind == 'counter' and all(how == 'next()' for _, _, how in writers[q])
       rs.check(ok, rule, q, 'itertools.count advanced only by next(): ' +
